@@ -92,7 +92,7 @@ func (c04) RunBatch(ctx *core.Ctx, batch int) {
 		}
 	case batch == 1+p.nTree+p.nDeep:
 		// hostile strings as values in every value position (quoted, and escaped when eligible)
-		for _, h := range gen.HostileStrings {
+		for _, h := range gen.ValueDict(ctx.Rand("values"), 150) {
 			if strings.Contains(h, `"`) {
 				continue
 			}
